@@ -337,6 +337,11 @@ def check_run(case: dict[str, Any], out: dict[str, Any], aborting: bool, label: 
             if et in STEP_END and src == source and idx > out["aborted_at"] and tag.startswith(f"h:{chain[0]}:"):
                 check(flag, "not-latched", f"{label}: handler {tag} receives {et.name} of the aborted step while plan '{chain[0]}' is not yet "
                       "marked aborted", case)
+        # no step of an aborted plan starts after the abort (also not the next step that the function of a nested plan runs)
+        for idx, _, et, src in out["log"]:
+            if idx > out["aborted_at"] and et in (EventType.START_OPTIMIZER_STEP, EventType.START_EVALUATOR_STEP):
+                check(out["step_plan"].get(src) not in chain, "not-latched",
+                      f"{label}: a step of the aborted plan '{out['step_plan'].get(src)}' started ({et.name}, emission {idx}) after the abort", case)
         first_abort = next(i for i, (_, c) in enumerate(codes) if c == OptimizerExitCode.USER_ABORT)
         if not case["scenario"].startswith("nested"):
             for i, (_, c) in enumerate(codes):
